@@ -22,6 +22,10 @@ def workloads(rng, tier):
         ws.append(dict(kind='bgzf', blocks=[pat(0, 12), []], level=level, wc=2))          # Write, Flush, Close: empty last block
         ws.append(dict(kind='bgzf', blocks=[[], pat(3, 7)], level=level, wc=1))
     ws.append(dict(kind='bgzf', blocks=[pat(4, 40), pat(5, 1)], level=0, wc=1))
+    # several small data blocks: BSIZE of one member and the sum of two or three members differ in the low byte only
+    ws.append(dict(kind='bgzf', blocks=[pat(6, 8), pat(7, 11), pat(8, 6), pat(9, 20)], level=-1, wc=2))
+    ws.append(dict(kind='bam', recs=[-2, -3, -2, 4], level=-1, wc=1))
+    ws.append(dict(kind='bam', recs=[5, 3, 4], level=0, wc=1, split=[40, 80, 120, 160]))
     ws.append(dict(kind='bgzf', blocks=[], level=-1, wc=1))                                # only Close
     for level in (-1, 0):
         ws.append(dict(kind='bam', recs=[-4, 3, -5], level=level, wc=1))                  # flushes at record boundaries
@@ -65,12 +69,30 @@ def region(lay, pos):
     return 'beyond', -1, 0
 
 
+def merge_targets(lay):
+    """Single-byte BSIZE substitutions that make a member's announced size span
+    exactly this member and one or more following ones."""
+    b = lay['bounds']
+    out = []
+    for i in range(len(b) - 1):
+        cur = b[i + 1] - b[i] - 1
+        for j in range(i + 1, len(b) - 1):
+            tgt = b[j + 1] - b[i] - 1
+            if tgt >= 65536:
+                break
+            if tgt & 0xff00 == cur & 0xff00:
+                out.append([1, b[i] + 16, tgt & 0xff])
+            elif tgt & 0xff == cur & 0xff:
+                out.append([1, b[i] + 17, tgt >> 8])
+    return out
+
+
 def mutations(rng, tier, w, lay, n, exhaustive_framing):
-    muts = [[0, k] for k in range(n)]
+    muts = [[0, k] for k in range(n)] + merge_targets(lay)
     vals_small = [0, 1, 0x80, 0xff]
     for pos in range(n):
         reg, _, o = region(lay, pos)
-        if exhaustive_framing and 'payload' not in reg:
+        if (exhaustive_framing and 'payload' not in reg) or reg.endswith('bsize'):
             vs = range(256)
         else:
             vs = set(vals_small + [rng.randrange(256) for _ in range(2 if tier == 'quick' else 12)])
@@ -170,6 +192,7 @@ def run(res, rng, tier):
         if n > maxlen:
             continue
         muts = mutations(rng, tier, w, lay, n, exhaustive_framing=(wi == ex or tier != 'quick'))
+        res.count('%s/bsize-merge-targets' % w['kind'], len(merge_targets(lay)))
         for rd in (1, 2):
             step = 1500
             for i in range(0, len(muts), step):
